@@ -51,7 +51,9 @@ Val(bs, i) ==
     [] OTHER -> [v |-> [t |-> "bad", i |-> tc, raw |-> <<>>], n |-> 1]
 EncVal(v) == CASE v.t = "nil" -> <<0>> [] v.t = "int" -> <<1>> \o (IF v.i < 0 THEN v.raw ELSE EncUv(v.i)) [] v.t = "float" -> <<2>> \o v.raw
                [] v.t = "str" -> <<3>> \o EncUv(Len(v.raw)) \o v.raw [] v.t = "bool" -> <<4, v.i>>
-ValOf(r) == CASE r.t = "nil" -> NilV [] r.t = "int" -> (IF r.i < 0 THEN OodV("bigint") ELSE IntV(r.i)) [] r.t = "float" -> FloatOf(r.raw)
+\* an int in the 9-byte class is the two's-complement pattern of a negative number (or a huge one): small negatives are computable
+NegOf(raw) == IF Len(raw) = 9 /\ raw[1] = 255 /\ (\A i \in 2..6 : raw[i] = 255) THEN IntV((raw[7] * 65536 + raw[8] * 256 + raw[9]) - 16777216) ELSE OodV("bigint")
+ValOf(r) == CASE r.t = "nil" -> NilV [] r.t = "int" -> (IF r.i < 0 THEN NegOf(r.raw) ELSE IntV(r.i)) [] r.t = "float" -> FloatOf(r.raw)
               [] r.t = "str" -> StrV(r.raw) [] r.t = "bool" -> BoolV(r.i # 0) [] OTHER -> OodV("bad-const")
 RECURSIVE Vals(_, _, _, _)
 Vals(bs, i, k, acc) == IF k = 0 THEN [vs |-> acc, i |-> i] ELSE LET x == Val(bs, i) IN Vals(bs, i + x.n, k - 1, Append(acc, x.v))
